@@ -10,10 +10,12 @@ import (
 	"os/exec"
 	"path/filepath"
 	"sort"
-	"sync"
 	"strings"
+	"sync"
+	"syscall"
 	"time"
 
+	"github.com/attestantio/dirk/util"
 	"github.com/herumi/bls-eth-go-binary/bls"
 	pb "github.com/wealdtech/eth2-signer-api/pb/v1"
 	"google.golang.org/grpc"
@@ -43,6 +45,7 @@ type Node struct {
 	Peers map[uint64]string // id -> name:port, this instance included ("" = itself and a fictitious signer-2)
 	PKI   *PKI              // shared authority of the cluster (nil = a fresh one)
 	Other *PKI
+	GenTimeout string       // process.generation-timeout ("" = 10s)
 }
 
 // FreeAddr returns host:port with a currently free port on host.
@@ -141,6 +144,10 @@ func PrepareExternalNode(ctx context.Context, log *Log, mode, binary string, spe
 			fmt.Fprintf(&pb, "    %s: %s\n", w, perms[c][w])
 		}
 	}
+	genTimeout := node.GenTimeout
+	if genTimeout == "" {
+		genTimeout = "10s"
+	}
 	cfg := fmt.Sprintf(`log-level: warn
 server:
   id: %d
@@ -163,9 +170,9 @@ peers:
   - file://%s/pass.txt
 process:
   generation-passphrase: file://%s/pass.txt
-  generation-timeout: 10s
+  generation-timeout: %s
 permissions:
-%s`, node.ID, node.Name, addr, base, base, base, base, wallets, pp.String(), base, base, base, pb.String())
+%s`, node.ID, node.Name, addr, base, base, base, base, wallets, pp.String(), base, base, base, genTimeout, pb.String())
 	if err := os.WriteFile(filepath.Join(base, "dirk.yml"), []byte(cfg), 0o600); err != nil {
 		return nil, err
 	}
@@ -372,6 +379,10 @@ func RunRemoteDkg(ctx context.Context, sc *DkgScenario, binary string, log *Log)
 		addrs[id] = a
 		peers[id] = a
 	}
+	genTimeout := ""
+	if sc.TimeoutMs > 0 {
+		genTimeout = fmt.Sprintf("%dms", sc.TimeoutMs)
+	}
 	wn, _, _ := strings.Cut(sc.Account, "/")
 	spec := Spec{Wallets: []WalletSpec{{Name: "W1", Type: "nd", Accounts: []AccountSpec{{Name: "a0", KeyIdx: 0}}}, {Name: wn, Type: "distributed"}}}
 	envs := map[uint64]*ExternalEnv{}
@@ -383,7 +394,7 @@ func RunRemoteDkg(ctx context.Context, sc *DkgScenario, binary string, log *Log)
 	}()
 	for _, id := range ids {
 		e, err := PrepareExternalNode(ctx, log, "bare", binary, spec, map[string]map[string]string{"c1": {"W1": "All", wn: "All"}},
-			Node{ID: id, Name: names[id], Addr: addrs[id], Peers: peers, PKI: pki, Other: other})
+			Node{ID: id, Name: names[id], Addr: addrs[id], Peers: peers, PKI: pki, Other: other, GenTimeout: genTimeout})
 		if err != nil {
 			return err
 		}
@@ -396,6 +407,120 @@ func RunRemoteDkg(ctx context.Context, sc *DkgScenario, binary string, log *Log)
 	}
 	log.Emit(Ev{"ev": "Begin", "sc": sc.ID, "remote": true})
 	dial := func(id uint64) (*grpc.ClientConn, error) { return envs[id].Dialer().Dial(ctx, "valid-c1") }
+	// ---- direct protocol calls (C16, C17) sent with the caller's certificate to the instance's real receiver
+	snap := func(id uint64, account string) string {
+		c, err := dial(id)
+		if err != nil {
+			return "?"
+		}
+		defer c.Close()
+		cctx, ccancel := context.WithTimeout(ctx, 10*time.Second)
+		defer ccancel()
+		w, _, _ := strings.Cut(account, "/")
+		lres, err := pb.NewListerClient(c).ListAccounts(cctx, &pb.ListAccountsRequest{Paths: []string{w}})
+		if err != nil {
+			return "?"
+		}
+		for _, a := range lres.GetDistributedAccounts() {
+			if a.GetName() == account {
+				return "present:" + hex.EncodeToString(a.GetCompositePublicKey())
+			}
+		}
+		return "absent"
+	}
+	for i, call := range sc.Calls {
+		if call.Msg == "tick" {
+			time.Sleep(time.Duration(call.TickMs) * time.Millisecond)
+			log.Emit(Ev{"ev": "Call", "i": i, "msg": "tick"})
+			continue
+		}
+		e := envs[call.Inst]
+		if e == nil {
+			return fmt.Errorf("call %d: unknown instance %d", i, call.Inst)
+		}
+		cred := "tls-nocert"
+		if call.Caller != "" {
+			cn := call.Caller
+			var pid uint64
+			if _, err := fmt.Sscanf(call.Caller, "signer-%d", &pid); err == nil && call.Caller == peerName(pid) && names[pid] != "" {
+				cn = names[pid] // a peer: the certificate carries the peer's configured name
+			}
+			cred = "valid-" + cn
+		}
+		before := snap(call.Inst, call.Account)
+		var cerr error
+		extra := Ev{}
+		c, derr := e.Dialer().Dial(ctx, cred)
+		if derr != nil {
+			cerr = derr
+		} else {
+			cctx, ccancel := context.WithTimeout(ctx, 20*time.Second)
+			parts := make([]*pb.Endpoint, len(call.Participants))
+			for j, id := range call.Participants {
+				_, port, _ := net.SplitHostPort(addrs[id])
+				var pn uint32
+				_, _ = fmt.Sscanf(port, "%d", &pn)
+				parts[j] = &pb.Endpoint{Id: id, Name: names[id], Port: pn}
+			}
+			dk := pb.NewDKGClient(c)
+			switch call.Msg {
+			case "prepare":
+				_, cerr = dk.Prepare(cctx, &pb.PrepareRequest{Account: call.Account, Passphrase: []byte("pass"), Threshold: call.Threshold, Participants: parts})
+			case "execute":
+				_, cerr = dk.Execute(cctx, &pb.ExecuteRequest{Account: call.Account})
+			case "commit":
+				var res *pb.CommitResponse
+				if res, cerr = dk.Commit(cctx, &pb.CommitRequest{Account: call.Account, ConfirmationData: make([]byte, 32)}); cerr == nil {
+					extra["pubkey"] = hex.EncodeToString(res.GetPublicKey())
+				}
+			case "abort":
+				_, cerr = dk.Abort(cctx, &pb.AbortRequest{Account: call.Account})
+			case "contribute":
+				t := int(call.Threshold)
+				if t == 0 {
+					t = 2
+				}
+				sks := make([]bls.SecretKey, t)
+				vv := make([][]byte, t)
+				for k := range sks {
+					sks[k].SetByCSPRNG()
+					vv[k] = sks[k].GetPublicKey().Serialize()
+				}
+				var share bls.SecretKey
+				_ = share.Set(sks, util.BLSID(call.Inst))
+				var res *pb.ContributeResponse
+				if res, cerr = dk.Contribute(cctx, &pb.ContributeRequest{Account: call.Account, Secret: share.Serialize(), VerificationVector: vv}); cerr == nil && res != nil {
+					extra["got_share"] = len(res.GetSecret()) > 0
+				}
+			case "generate":
+				var res *pb.GenerateResponse
+				res, cerr = pb.NewAccountManagerClient(c).Generate(cctx, &pb.GenerateRequest{Account: call.Account, Passphrase: []byte("pass"), Participants: call.N, SigningThreshold: call.Threshold})
+				if cerr == nil && res.GetState() != pb.ResponseState_SUCCEEDED {
+					cerr = fmt.Errorf("generate: %s", res.GetMessage())
+				}
+			}
+			ccancel()
+			_ = c.Close()
+		}
+		after := snap(call.Inst, call.Account)
+		alive := e.proc != nil && syscall.Kill(e.proc.Process.Pid, 0) == nil && after != "?"
+		ev := Ev{"ev": "Call", "i": i, "inst": call.Inst, "caller": call.Caller, "msg": call.Msg, "account": call.Account, "result": errClass(cerr),
+			"changed": before != after, "crashed": !alive}
+		if cerr != nil {
+			ev["err"] = cerr.Error()
+		}
+		for k, v := range extra {
+			ev[k] = v
+		}
+		log.Emit(ev)
+	}
+	if !sc.Generate {
+		for _, id := range ids {
+			envs[id].Kill()
+		}
+		log.Emit(Ev{"ev": "End", "sc": sc.ID, "crashed": []uint64{}})
+		return nil
+	}
 	conn, err := dial(sc.Initiator)
 	if err != nil {
 		return err
